@@ -73,11 +73,34 @@ class TlcResult(object):
         self.ok = self.completed and not self.errors
 
     def tuples(self, tag):
-        """PrintT'ed lines of the form <<"TAG", ...>> as lists of raw fields (strings / ints)."""
+        """PrintT'ed values of the form <<"TAG", ...>> (TLC wraps long values over several lines, so the output is
+        scanned with bracket matching, not line by line)."""
         res = []
-        for l in self.printed:
-            if l.startswith('<<"%s"' % tag):
-                res.append(parse_tla(l))
+        out = self.out
+        for m in re.finditer(r'^<<\s*"%s"' % re.escape(tag), out, re.M):
+            i = m.start()
+            depth = 0
+            j = i
+            instr = False
+            while j < len(out):
+                c = out[j]
+                if instr:
+                    if c == "\\":
+                        j += 1
+                    elif c == '"':
+                        instr = False
+                elif c == '"':
+                    instr = True
+                elif out.startswith("<<", j):
+                    depth += 1
+                    j += 1
+                elif out.startswith(">>", j):
+                    depth -= 1
+                    j += 1
+                    if depth == 0:
+                        break
+                j += 1
+            res.append(parse_tla(out[i:j + 1]))
         return res
 
 
@@ -287,6 +310,8 @@ def validate_traces(workdir, module, cfg_text, events, shards=None, per_shard_mi
         bad = []
         for t in r.tuples("BAD"):
             bad.append((base + t[1] - 1, t[2:]))
+        if len(bad) != len(re.findall(r'^<<\s*"BAD"', r.out, re.M)):
+            raise MachineryFailure("could not parse every BAD verdict of trace batch %s/%d" % (module, ix))
         os.unlink(path)
         return bad, r.generated, r.distinct, r.wall
 
